@@ -105,7 +105,8 @@ type Sim struct {
 	conns     []*simConn
 	connSeq   int
 	connCount map[string]int
-	sndWindow int // >0: server-side writes block while this many bytes are undelivered
+	subWindow bool // the send window applies to subscriber connections too (needs the seam of sim/seams.go)
+	sndWindow int  // >0: server-side writes block while this many bytes are undelivered
 	statMu    sync.Mutex
 	actors    []*Actor
 	gmap      map[uint64]*ginfo // goroutine id -> identity
@@ -441,6 +442,7 @@ func (s *Sim) logHash() uint64 {
 // meaning): the send window after which a server-side Write blocks until delivery.
 func (s *Sim) drawNet(knob func(string, int) int) {
 	s.sndWindow = []int{0, 0, 1, 300, 5000}[knob("sndwin", 5)]
+	s.subWindow = knob("subwin", 2) == 1 // the window also holds back writes to subscribers
 }
 
 func (s *Sim) drawWeights() {
